@@ -94,6 +94,10 @@ def worldOp (st : WSt) (wd : List String) : WSt × String :=
   | "rderr" :: p :: _ => ({ st with w := setRdErr st.w (num p) }, "ok")
   | ["wrerr", p] => ({ st with w := setWrErr st.w (num p) true }, "ok")
   | ["wrerr", p, k] => ({ st with w := setWrErr st.w (num p) (k == "BrokenPipe") }, "ok")
+  -- a cooperative transport (reads come in pieces, the reader is made to yield in the middle of available data): what a
+  -- socket decodes depends on the byte stream only (C02) — no effect in the model
+  | ["yieldy", _, _] => (st, "ok")
+  | ["yieldy", _, _, _] => (st, "ok")
   | ["credit", p, c] =>
     ({ st with w := setCredit st.w (num p) (if c == "inf" then none else some (num c)) }, "ok")
   | ["wire", p] =>
@@ -198,7 +202,8 @@ def worldOp (st : WSt) (wd : List String) : WSt × String :=
       let gone := st.owner.filter (·.2 == sid) |>.map (·.1)
       let w := { st.w with futs := st.w.futs.filter (fun e => !gone.contains e.1) }
       ({ st with w := dropSocket w sid, owner := st.owner.filter (·.2 != sid) }, "ok")
-  | ["poll", f] =>
+  -- `pollx f`: one poll made with tokio's cooperative budget used up — the model has no budget: the same as `poll f`
+  | ["poll", f] | ["pollx", f] =>
     let fid := num f
     match lookup st.w.futs fid with
     | none => if st.finished.contains fid then (st, "done") else (st, "bad-op no-fut")
